@@ -3,6 +3,7 @@ package main
 // C01 — bridge escrow conservation and all-or-nothing transfer lifecycle.
 
 import (
+	"go/constant"
 	"go/types"
 	"sort"
 	"strings"
@@ -132,8 +133,9 @@ func commitOnSuccessOnly(f *ssa.Function, commit ssa.Value) (bool, string) {
 						nilGuard = true
 					}
 				}
-				if ReachAvoiding(f, in, errRets, nil) != nil && !nilGuard {
-					return false, "an error return is reachable after the inline commit"
+				_ = nilGuard
+				if ReachAvoiding(f, in, errRets, nil) != nil {
+					return false, "an error return is reachable after the inline commit: the function can report failure with its changes already persisted"
 				}
 				// and not reachable from a failing edge: every error-typed nonnil fact must not dominate it
 				for _, fa := range FactsAt(in) {
@@ -335,6 +337,46 @@ func rulesC01(w *World, o *Out) {
 	o.Rule("C01.R3", "amounts pair up: lock = amount + the very tax value stored with the transfer; refund = stored amount + stored tax to the checked owner; burn = sum of stored amount + stored tax of the batch; mint = the claim's amount")
 	o.Rule("C01.R4", "pool and batch moves are exclusive: pool entries are added only by send, cancel-batch and genesis, removed only by refund and batch building; batch deletion is preceded by re-pooling (cancel) or burning (executed); a built batch stores the selected transfers")
 	o.Rule("C01.R5", "mint / burn of the escrow are reachable only through the attestation handler (itself only called from processAttestation) or an authority-guarded governance handler")
+	o.Rule("C01.R7", "the bridge escrow can be credited only by bridge operations: the skyway module account stays on the bank keeper's blocked-address list (BlockedAddresses removes only other module accounts)")
+	if ba := w.MustFunc(o, "app", "", "BlockedAddresses"); ba != nil {
+		o.Analysed(w.FuncKey(ba))
+		name := ""
+		if tp := w.TypesPkg(modPath + "/x/skyway/types"); tp != nil {
+			if c, isC := tp.Scope().Lookup("ModuleName").(*types.Const); isC {
+				name = constant.StringVal(c.Val())
+			}
+		}
+		if name == "" {
+			o.Unresolved("x/skyway/types.ModuleName")
+		}
+		var freed []string
+		nDel := 0
+		for _, c := range CallsIn(ba) {
+			b, isB := c.Common().Value.(*ssa.Builtin)
+			if !isB || b.Name() != "delete" {
+				continue
+			}
+			nDel++
+			_, calls := NewFlow(w).Influence(c.Args()[1])
+			known := false
+			for cc := range calls {
+				if cal, okc := CalleeOf(cc.Common()); okc && cal.Name == "NewModuleAddress" && len(cc.Call.Args) == 1 {
+					if k, isK := cc.Call.Args[0].(*ssa.Const); isK && k.Value != nil && k.Value.Kind() == constant.String {
+						known = true
+						if constant.StringVal(k.Value) == name {
+							freed = append(freed, name)
+						}
+					}
+				}
+			}
+			if !known {
+				freed = append(freed, "<an address not given as a module-name constant>")
+			}
+		}
+		o.Count("C01.R7 unblocked module accounts", nDel, 1)
+		o.Check("C01.R7", "BlockedAddresses|the bridge escrow cannot receive plain bank transfers", len(freed) == 0 && name != "", w.Pos(ba.Pos()),
+			"removed from the blocked list: "+strings.Join(freed, ",")+"; a bank send into the skyway module account makes the escrow exceed the pending transfers with coins no bridge operation can refund or burn")
+	}
 	o.Rule("C01.R6", "after an attested deposit is minted, every success path forwards the coins (to the receiver, or to the community pool when the local send failed)")
 
 	muts := w.StoreMuts(fl)
